@@ -612,6 +612,10 @@ func TestCheck(t *testing.T) {
 				}
 				caps = append(caps, fmt.Sprintf("%s: child %s (%s)", cfg.name(), kind, first))
 				confirmed := false
+				if _, seen := viol[kind+"/"+cfg.Transport]; seen {
+					// the same kind of failure was already confirmed on a smaller configuration of this transport
+					confirmed, lists = true, nil
+				}
 				for _, ch := range lists {
 					same := 0
 					var lastOut childOutcome
@@ -713,6 +717,7 @@ func TestCheck(t *testing.T) {
 			"not_enumerated":               "5-7 replicas; more than 2 sections per node; relative order of two concurrently pending timers; goroutine interleavings inside one resource between two scheduler points (they only read local state and park)",
 			"wall_s_exploration":           time.Since(start).Seconds(),
 			"child_processes":              par,
+			"real_rpc_cross_check":         realRPCCrossCheck(),
 		}
 		return res
 	})
